@@ -300,7 +300,7 @@ def _hyp_shard(args):
 def hyp_explore(ctx, judge, make_strategy, to_case, shards, examples):
     import time
     t0 = time.time()
-    jobs = [(judge, make_strategy, to_case, core.subseed(ctx.seed, ctx.prop, 'hyp', i), examples, ctx.prop) for i in range(shards)]
+    jobs = [(judge, make_strategy, to_case, core.subseed(ctx.seed, ctx.prop, 'hyp', make_strategy.__name__, i), examples, ctx.prop) for i in range(shards)]
     raw = []
     for r in core.pmap(_hyp_shard, jobs):
         raw.extend(r.pop('raw', []))
